@@ -27,7 +27,7 @@ def main():
         if not (os.path.exists(patch) and os.path.exists(demo)):
             note("incomplete delivery"); continue
         t0 = time.time()
-        rc, out = sh(f"sh {demo} {wt}", timeout=2400); clean = re.findall(r"DEMO_RESULT=(\w+)", out)
+        rc, out = sh(f"bash {demo} {wt}", timeout=2400); clean = re.findall(r"DEMO_RESULT=(\w+)", out)
         note(f"demo on clean tree: rc={rc} {clean} ({round(time.time()-t0)} s)")
         dirty = sh("git status --porcelain", cwd=wt)[1].strip()
         if dirty: note("demo left the tree dirty: " + dirty[:200]); sh("git checkout -q -- . && git clean -qfd -e target", cwd=wt)
@@ -38,7 +38,7 @@ def main():
         passed = sum(int(x) for x in re.findall(r"test result: \w+\. (\d+) passed", out)); failed = sum(int(x) for x in re.findall(r"(\d+) failed;", out))
         note(f"with patch: build rc={build_rc}, tests passed={passed} failed={failed} rc={rc}")
         t0 = time.time()
-        rc2, out2 = sh(f"sh {demo} {wt}", timeout=2400); with_patch = re.findall(r"DEMO_RESULT=(\w+)", out2)
+        rc2, out2 = sh(f"bash {demo} {wt}", timeout=2400); with_patch = re.findall(r"DEMO_RESULT=(\w+)", out2)
         note(f"demo with patch: rc={rc2} {with_patch} ({round(time.time()-t0)} s)")
         sh("git checkout -q -- . && git clean -qfd -e target", cwd=wt)
         ok = clean == ["pass"] and with_patch == ["fail"] and rc == 0 and failed == 0 and passed >= 57
